@@ -363,3 +363,30 @@ func RefIndent(src []byte, prefix, indent []byte, keepTrailing bool) []byte {
 	}
 	return out
 }
+
+// RefCanon: the canonical re-encoding of a valid JSON text: whitespace
+// dropped, number literals kept, every string re-escaped from its decoded
+// value by EscapeRef(html, norm=true). Defined for texts whose objects hold at
+// most one member (member order and duplicate keys are outside it).
+func RefCanon(src []byte, html bool) []byte {
+	out := []byte{}
+	for i := 0; i < len(src); {
+		c := src[i]
+		if isWS(c) {
+			i++
+			continue
+		}
+		if c == '"' {
+			tok := StringLiteral(src[i:])
+			if !tok.OK {
+				return nil
+			}
+			out = append(out, EscapeRef(tok.Value, html, true)...)
+			i += tok.End
+			continue
+		}
+		out = append(out, c)
+		i++
+	}
+	return out
+}
